@@ -7,11 +7,64 @@ namespace Tmv.Pipeline
 
 /-- state after `k` blocks (canonical app hash), block store after `st` blocks, application after
 `a` blocks with open execution `p` and a journal the grammar accepts -/
+theorem ht_le (c : Chain) {a b : Nat} (h : a ≤ b) : ht c a ≤ ht c b := by
+  rcases Nat.lt_or_eq_of_le h with e | e
+  · exact Nat.le_of_lt (ht_lt c e)
+  · rw [e]; exact Nat.le_refl _
+
+/-- pruning never got ahead of what recovery needs: the block store's base is at most the block
+after the application's, and the state store still has the validator sets from the application's
+and the state's block on -/
+def PruneOK (c : Chain) (d : Disk) (k a : Nat) : Prop :=
+  d.storeBase ≤ ht c (a + 1) ∧ d.statesBase ≤ ht c a ∧ d.statesBase ≤ ht c k
+
+theorem PruneOK.appSucc {c : Chain} {d : Disk} {k a : Nat} (h : PruneOK c d k a) : PruneOK c d k (a + 1) :=
+  ⟨Nat.le_trans h.1 (ht_le c (by omega)), Nat.le_trans h.2.1 (ht_le c (by omega)), h.2.2⟩
+
+theorem PruneOK.stateSucc {c : Chain} {d : Disk} {k a : Nat} (h : PruneOK c d k a) : PruneOK c d (k + 1) a :=
+  ⟨h.1, h.2.1, Nat.le_trans h.2.2 (ht_le c (by omega))⟩
+
+theorem hlowA_of {c : Chain} {d : Disk} {k a : Nat} (hp : PruneOK c d k a) (ha : d.app.height = ht c a) :
+    ¬ (d.app.height = 0 ∧ c.ih < d.storeBase) := by
+  intro ⟨h0, h1⟩
+  have : a = 0 := by
+    cases a with
+    | zero => rfl
+    | succ a' => have := ht_pos c a'; omega
+  subst this
+  have := hp.1
+  simp [ht, Chain.ih] at this h1
+  omega
+
+theorem hlowB_of {c : Chain} {d : Disk} {k a : Nat} (hp : PruneOK c d k a) (ha : d.app.height = ht c a) :
+    ¬ (0 < d.app.height ∧ d.app.height < d.storeBase - 1) := by
+  intro ⟨h0, h1⟩
+  have hb := hp.1
+  cases a with
+  | zero => rw [ha] at h0; simp at h0
+  | succ a' =>
+    rw [ha] at h1
+    rw [ht_succ] at hb h1
+    omega
+
+/-- the validator set needed to execute block `a+1` on an application after `a` blocks is there -/
+theorem valsOK_of {c : Chain} {d : Disk} {a b : Nat} (hs : d.statesBase ≤ ht c a) (hab : a ≤ b) :
+    valsOK c d (ht c (b + 1)) = true := by
+  simp only [valsOK, Bool.or_eq_true, decide_eq_true_eq]
+  cases b with
+  | zero => left; left; simp [ht, Chain.ih]
+  | succ b' =>
+    left; right
+    have h1 : ht c (b' + 1 + 1) - 1 = ht c (b' + 1) := by rw [ht_succ, ht_succ]; omega
+    rw [h1]
+    exact Nat.le_trans hs (ht_le c hab)
+
 structure DInv (c : Chain) (d : Disk) (k st a : Nat) (p : Option Pending) : Prop where
   stateH : d.stateH = ht c k
   stateHash : d.stateHash = histK c k
   storeH : d.storeH = ht c st
   app : AppAt c d.app a p
+  pr : PruneOK c d k a
 
 /-- all three cursors after `k` blocks, nothing open -/
 def Good (c : Chain) (d : Disk) (k : Nat) : Prop := DInv c d k k k none
@@ -27,7 +80,7 @@ def Inv (c : Chain) (d : Disk) : Prop :=
 def CrashOK (c : Chain) (d : Disk) : Prop := Inv c (crash d)
 
 theorem DInv.crash {c d n st ah p} (h : DInv c d n st ah p) : DInv c (crash d) n st ah none :=
-  ⟨h.stateH, h.stateHash, h.storeH, h.app.restart⟩
+  ⟨h.stateH, h.stateHash, h.storeH, h.app.restart, h.pr⟩
 
 theorem crashOK_behind {c d k st a p} (h : DInv c d k st a p) (ha : a ≤ k) (hst : st = k ∨ st = k + 1) :
     CrashOK c d := by
@@ -58,7 +111,7 @@ theorem deliver_run {c : Chain} {k st a : Nat} (Q : Disk → Prop)
     have hget : (c (ht c (a + 1)))[pre.length]? = some tx := by
       rw [← hp]; simp
     have h' : DInv c (applyEff d (.deliver (ht c (a + 1)) tx)) k st a (some ⟨ht c (a + 1), pre ++ [tx], false⟩) :=
-      ⟨h.stateH, h.stateHash, h.storeH, h.app.deliver hget⟩
+      ⟨h.stateH, h.stateHash, h.storeH, h.app.deliver hget, h.pr⟩
     have ih := deliver_run Q hQ rest (pre ++ [tx]) _ (by simpa using hp) h'
     exact ⟨⟨hQ _ _ h, ih.1⟩, by simpa [applyEffs] using ih.2⟩
 
@@ -69,12 +122,12 @@ theorem exec_run {c : Chain} {d : Disk} {k st a : Nat} (Q : Disk → Prop)
       DInv c (applyEffs d (execEffs c (ht c (a + 1)))) k st a
         (some ⟨ht c (a + 1), c (ht c (a + 1)), true⟩) := by
   have hb : DInv c (applyEff d (.begin (ht c (a + 1)))) k st a (some ⟨ht c (a + 1), [], false⟩) :=
-    ⟨h.stateH, h.stateHash, h.storeH, h.app.begin⟩
+    ⟨h.stateH, h.stateHash, h.storeH, h.app.begin, h.pr⟩
   have hd := deliver_run Q hQ (c (ht c (a + 1))) [] _ (by simp) hb
   have he : DInv c (applyEff (applyEffs (applyEff d (.begin (ht c (a + 1))))
       ((c (ht c (a + 1))).map (Eff.deliver (ht c (a + 1))))) (.endBlock (ht c (a + 1)))) k st a
       (some ⟨ht c (a + 1), c (ht c (a + 1)), true⟩) :=
-    ⟨hd.2.stateH, hd.2.stateHash, hd.2.storeH, hd.2.app.endBlock⟩
+    ⟨hd.2.stateH, hd.2.stateHash, hd.2.storeH, hd.2.app.endBlock, hd.2.pr⟩
   unfold execEffs
   refine ⟨?_, ?_⟩
   · refine PrefAll.append (PrefAll.append ⟨hQ _ _ h, hQ _ _ hb⟩ ?_) ?_
@@ -90,7 +143,7 @@ theorem execCommit_run {c : Chain} {d : Disk} {k st a : Nat} (ha : a + 1 ≤ k) 
       DInv c (applyEffs d (execCommit c (ht c (a + 1)))) k st (a + 1) none := by
   have hx := exec_run (CrashOK c) (fun _ _ h' => crashOK_behind h' (by omega) hst) h
   have h2 : DInv c (applyEff (applyEffs d (execEffs c (ht c (a + 1)))) .appCommit) k st (a + 1) none :=
-    ⟨hx.2.stateH, hx.2.stateHash, hx.2.storeH, hx.2.app.commit⟩
+    ⟨hx.2.stateH, hx.2.stateHash, hx.2.storeH, hx.2.app.commit, hx.2.pr.appSucc⟩
   unfold execCommit
   refine ⟨PrefAll.append hx.1 ⟨crashOK_behind hx.2 (by omega) hst, crashOK_behind h2 ha hst⟩, ?_⟩
   rw [applyEffs_append]
@@ -105,13 +158,13 @@ theorem applyBlockReal_run {c : Chain} {d : Disk} {n : Nat} (h : DInv c d n (n +
   have h1 : DInv c d1 n (n + 1) n (some ⟨ht c (n + 1), c (ht c (n + 1)), true⟩) := hx.2
   let d2 := applyEff d1 (.saveResp (ht c (n + 1)))
   have h2 : DInv c d2 n (n + 1) n (some ⟨ht c (n + 1), c (ht c (n + 1)), true⟩) :=
-    ⟨h1.stateH, h1.stateHash, h1.storeH, h1.app⟩
+    ⟨h1.stateH, h1.stateHash, h1.storeH, h1.app, h1.pr⟩
   let d3 := applyEff d2 .appCommit
-  have h3 : DInv c d3 n (n + 1) (n + 1) none := ⟨h2.stateH, h2.stateHash, h2.storeH, h2.app.commit⟩
+  have h3 : DInv c d3 n (n + 1) (n + 1) none := ⟨h2.stateH, h2.stateHash, h2.storeH, h2.app.commit, h2.pr.appSucc⟩
   have h3r : d3.lastResp = some (ht c (n + 1)) := rfl
   let d4 := applyEff d3 (.saveState (ht c (n + 1)))
   have h4 : DInv c d4 (n + 1) (n + 1) (n + 1) none :=
-    ⟨rfl, h3.app.hash, h3.storeH, h3.app⟩
+    ⟨rfl, h3.app.hash, h3.storeH, h3.app, h3.pr.stateSucc⟩
   unfold applyBlockReal
   refine ⟨PrefAll.append hx.1 ?_, ?_⟩
   · exact ⟨crashOK_store h1, crashOK_store h2, crashOK_app h3 h3r, crashOK_same h4⟩
@@ -125,9 +178,9 @@ theorem applyBlockMock_run {c : Chain} {d : Disk} {n : Nat} (h : DInv c d n (n +
     PrefAll (CrashOK c) d (applyBlockMock (ht c (n + 1))) ∧
       Good c (applyEffs d (applyBlockMock (ht c (n + 1)))) (n + 1) := by
   let d1 := applyEff d (.saveResp (ht c (n + 1)))
-  have h1 : DInv c d1 n (n + 1) (n + 1) none := ⟨h.stateH, h.stateHash, h.storeH, h.app⟩
+  have h1 : DInv c d1 n (n + 1) (n + 1) none := ⟨h.stateH, h.stateHash, h.storeH, h.app, h.pr⟩
   let d2 := applyEff d1 (.saveState (ht c (n + 1)))
-  have h2 : DInv c d2 (n + 1) (n + 1) (n + 1) none := ⟨rfl, h1.app.hash, h1.storeH, h1.app⟩
+  have h2 : DInv c d2 (n + 1) (n + 1) (n + 1) none := ⟨rfl, h1.app.hash, h1.storeH, h1.app, h1.pr.stateSucc⟩
   exact ⟨⟨crashOK_app h hr, crashOK_app h1 rfl, crashOK_same h2⟩, by simpa [applyEffs, applyBlockMock, Good] using h2⟩
 
 /-! ## the WAL marker / privval layer -/
@@ -138,7 +191,7 @@ def quiet : Eff → Bool
   | .pvSign _ _ => false
   | .saveBlock _ => false
   | .walEnd _ => false
-  | _ => true
+  | _ => true  -- incl. pruneBlocks / pruneStates: they move the store's base, not its height
 
 /-- a vote of the height in progress (the one after the store) is only ever signed when the WAL
 holds the previous height's #ENDHEIGHT, so that the vote's WAL record can be replayed -/
@@ -147,7 +200,7 @@ def WInv (c : Chain) (d : Disk) : Prop :=
 
 theorem applyEff_quiet {d : Disk} {e : Eff} (h : quiet e = true) :
     (applyEff d e).storeH = d.storeH ∧ (applyEff d e).walEnd = d.walEnd ∧ (applyEff d e).pvH = d.pvH := by
-  cases e <;> simp [quiet] at h <;> simp [applyEff]
+  cases e <;> simp [quiet] at h <;> simp only [applyEff] <;> (try split) <;> simp
 
 theorem applyEffs_quiet {d : Disk} {es : List Eff} (h : ∀ e ∈ es, quiet e = true) :
     (applyEffs d es).storeH = d.storeH ∧ (applyEffs d es).walEnd = d.walEnd ∧ (applyEffs d es).pvH = d.pvH := by
@@ -208,6 +261,7 @@ theorem applyEff_gs {d : Disk} {e : Eff} (h : d.genesisSaved = true) : (applyEff
   cases e <;> simp [applyEff, h]
   case signVote hh v => split <;> simp [h]
   case pvSign hh v => split <;> simp [h]
+  case pruneBlocks r => split <;> simp [h]
 
 theorem applyEffs_gs {d : Disk} {es : List Eff} (h : d.genesisSaved = true) :
     (applyEffs d es).genesisSaved = true := by
@@ -219,8 +273,52 @@ theorem DInv.signVote {c : Chain} {d : Disk} {k st a : Nat} {p : Option Pending}
     (hh v : Nat) : DInv c (applyEff d (.signVote hh v)) k st a p := by
   simp only [applyEff]
   split
-  · exact ⟨h.stateH, h.stateHash, h.storeH, h.app⟩
-  · exact ⟨h.stateH, h.stateHash, h.storeH, h.app⟩
+  · exact ⟨h.stateH, h.stateHash, h.storeH, h.app, h.pr⟩
+  · exact ⟨h.stateH, h.stateHash, h.storeH, h.app, h.pr⟩
+
+theorem Good.pruneBlocks {c : Chain} {d : Disk} {m : Nat} (h : Good c d m) (r : Nat) :
+    Good c (applyEff d (.pruneBlocks r)) m := by
+  simp only [applyEff]
+  split
+  · rename_i hc
+    refine ⟨h.stateH, h.stateHash, h.storeH, h.app, ?_, h.pr.2.1, h.pr.2.2⟩
+    show r ≤ ht c (m + 1)
+    have := hc.2; rw [h.storeH] at this
+    exact Nat.le_trans this (ht_le c (by omega))
+  · exact h
+
+theorem Good.pruneStates {c : Chain} {d : Disk} {m : Nat} (h : Good c d m) (r kept : Nat) (hr : r ≤ ht c m) :
+    Good c (applyEff d (.pruneStates r kept)) m :=
+  ⟨h.stateH, h.stateHash, h.storeH, h.app, h.pr.1, hr, hr⟩
+
+theorem quiet_pruneList (c : Chain) (r h : Nat) : ∀ e ∈ pruneList c r h, quiet e = true := by
+  intro e he
+  simp only [pruneList] at he
+  split at he <;> simp at he
+  · rcases he with rfl | rfl <;> rfl
+  · subst he; rfl
+
+theorem quiet_prune (c : Chain) (d : Disk) (h : Nat) : ∀ e ∈ pruneEffs c d h, quiet e = true := by
+  intro e he
+  cases hc : pruneCond c d h <;> simp [pruneEffs, hc] at he
+  exact quiet_pruneList c _ _ e he
+
+theorem pruneList_run {c : Chain} {d : Disk} {m : Nat} (h : Good c d m) (r : Nat) :
+    PrefAll (CrashOK c) d (pruneList c r (ht c m)) ∧ Good c (applyEffs d (pruneList c r (ht c m))) m := by
+  have h1 := h.pruneBlocks r
+  by_cases hr : r ≤ ht c m
+  · have h2 := h1.pruneStates r (c.valLHC r) hr
+    simp only [pruneList, hr, if_true]
+    exact ⟨⟨crashOK_same h, crashOK_same h1, crashOK_same h2⟩, h2⟩
+  · simp only [pruneList, hr, if_false]
+    exact ⟨⟨crashOK_same h, crashOK_same h1⟩, h1⟩
+
+/-- `cs.pruneBlocks` on a synced node: each crash point leaves a synced node -/
+theorem prune_run {c : Chain} {d0 d : Disk} {m : Nat} (h : Good c d m) :
+    PrefAll (CrashOK c) d (pruneEffs c d0 (ht c m)) ∧ Good c (applyEffs d (pruneEffs c d0 (ht c m))) m := by
+  cases hc : pruneCond c d0 (ht c m) <;> simp only [pruneEffs, hc]
+  · exact ⟨crashOK_same h, h⟩
+  · exact pruneList_run h _
 
 /-- deciding block `n+1` on a synced node whose WAL holds the #ENDHEIGHT of block `n`: enabled,
 every crash prefix leaves an `Inv`/`WInv` disk, the complete run leaves a synced node after `n+1`
@@ -245,10 +343,15 @@ theorem finalize_run {c : Chain} {d : Disk} {n : Nat} (h : Good c d n) (hw : d.w
   have f0' : d0'.storeH = d.storeH ∧ d0'.walEnd = d.walEnd ∧ d0'.pvH = H := by
     simp only [d0', applyEff]; split <;> simp_all
   let d1 := applyEff d0' (.saveBlock H)
-  have h1 : DInv c d1 n (n + 1) n none := ⟨h0'.stateH, h0'.stateHash, rfl, h0'.app⟩
+  have h1 : DInv c d1 n (n + 1) n none := by
+    refine ⟨h0'.stateH, h0'.stateHash, rfl, h0'.app, ?_, h0'.pr.2.1, h0'.pr.2.2⟩
+    show (if d0'.storeBase = 0 then H else d0'.storeBase) ≤ ht c (n + 1)
+    split
+    · exact Nat.le_refl _
+    · exact h0'.pr.1
   have f1 : d1.storeH = H ∧ d1.pvH = H := ⟨rfl, f0'.2.2⟩
   let d2 := applyEff d1 (.walEnd H)
-  have h2 : DInv c d2 n (n + 1) n none := ⟨h1.stateH, h1.stateHash, h1.storeH, h1.app⟩
+  have h2 : DInv c d2 n (n + 1) n none := ⟨h1.stateH, h1.stateHash, h1.storeH, h1.app, h1.pr⟩
   have f2 : d2.storeH = H ∧ d2.pvH = H ∧ d2.walEnd = H := ⟨rfl, f0'.2.2, rfl⟩
   have hr := applyBlockReal_run h2
   have hHlt : H < nxt c H := by
@@ -270,15 +373,32 @@ theorem finalize_run {c : Chain} {d : Disk} {n : Nat} (h : Good c d n) (hw : d.w
     · rw [f2.1, f2.2.1]; exact Nat.le_refl _
     · rw [f2.1, f2.2.1] at e; omega
   have hq := applyEffs_quiet (d := d2) (quiet_real c H)
-  refine ⟨[.signVote H 1, .signVote H 2] ++ [.saveBlock H] ++ [.walEnd H] ++ applyBlockReal c H, ?_, ?_, ?_, ?_, ?_⟩
+  let d3 := applyEffs d2 (applyBlockReal c H)
+  have hp := prune_run (c := c) (d0 := d) (d := d3) (m := n + 1) hr.2
+  have hqp := applyEffs_quiet (d := d3) (quiet_prune c d H)
+  have w3 : WInv c d3 := w2.congr hq.1 hq.2.1 hq.2.2
+  refine ⟨[.signVote H 1, .signVote H 2] ++ [.saveBlock H] ++ [.walEnd H] ++ applyBlockReal c H ++ pruneEffs c d H,
+    ?_, ?_, ?_, ?_, ?_⟩
   · rw [hnx]; simp [finalizeEffs, hv, hlt, H]
-  · exact ⟨⟨crashOK_same h, hwi⟩, ⟨crashOK_same h0, w0⟩, ⟨crashOK_same h0', w0'⟩, ⟨crashOK_store h1, w1⟩,
-      PrefAll.and hr.1 (PrefAll.winv_quiet w2 (quiet_real c H))⟩
-  · simpa [applyEffs] using hr.2
-  · have : (applyEffs d2 (applyBlockReal c H)).walEnd = H := hq.2.1
-    simpa [applyEffs] using this
-  · have : WInv c (applyEffs d2 (applyBlockReal c H)) := w2.congr hq.1 hq.2.1 hq.2.2
-    simpa [applyEffs] using this
+  · refine PrefAll.append ?_ ?_
+    · exact ⟨⟨crashOK_same h, hwi⟩, ⟨crashOK_same h0, w0⟩, ⟨crashOK_same h0', w0'⟩, ⟨crashOK_store h1, w1⟩,
+        PrefAll.and hr.1 (PrefAll.winv_quiet w2 (quiet_real c H))⟩
+    · have : applyEffs d ([.signVote H 1, .signVote H 2] ++ [.saveBlock H] ++ [.walEnd H] ++ applyBlockReal c H) = d3 := by
+        simp [applyEffs, d3, d2, d1, d0', d0]
+      rw [this]
+      exact PrefAll.and hp.1 (PrefAll.winv_quiet w3 (quiet_prune c d H))
+  · rw [applyEffs_append]
+    have : applyEffs d ([.signVote H 1, .signVote H 2] ++ [.saveBlock H] ++ [.walEnd H] ++ applyBlockReal c H) = d3 := by
+      simp [applyEffs, d3, d2, d1, d0', d0]
+    rw [this]; exact hp.2
+  · rw [applyEffs_append]
+    have : applyEffs d ([.signVote H 1, .signVote H 2] ++ [.saveBlock H] ++ [.walEnd H] ++ applyBlockReal c H) = d3 := by
+      simp [applyEffs, d3, d2, d1, d0', d0]
+    rw [this, hqp.2.1]; exact hq.2.1
+  · rw [applyEffs_append]
+    have : applyEffs d ([.signVote H 1, .signVote H 2] ++ [.saveBlock H] ++ [.walEnd H] ++ applyBlockReal c H) = d3 := by
+      simp [applyEffs, d3, d2, d1, d0', d0]
+    rw [this]; exact w3.congr hqp.1 hqp.2.1 hqp.2.2
 
 /-! ## the handshake -/
 
@@ -297,15 +417,16 @@ theorem range'_hts (c : Chain) (a m : Nat) : List.range' (ht c (a + 1)) m = hts 
 /-- the loop of `replayBlocks`: `m` blocks executed and committed on an application that is at
 least `m` blocks behind the state; never trips the app-hash assertion; every crash prefix is `Inv` -/
 theorem replayLoop_run {c : Chain} {d0 : Disk} {k st : Nat} (hst : st = k ∨ st = k + 1) :
-    ∀ (m a : Nat) (acc : List Eff) (appHash : Hist) (n : Nat), a + m ≤ k →
+    ∀ (m a : Nat) (acc : List Eff) (appHash : Hist) (n : Nat), a + m ≤ k → d0.statesBase ≤ ht c a →
       DInv c (applyEffs d0 acc) k st a none → (appHash = [] ∨ appHash = histK c a) →
       ∃ es hash', replayLoop c d0 (hts c a m) acc appHash n = .ok (acc ++ es, hash', n + m) ∧
         (0 < m → hash' = histK c (a + m)) ∧
         PrefAll (CrashOK c) (applyEffs d0 acc) es ∧ DInv c (applyEffs d0 (acc ++ es)) k st (a + m) none ∧
         (∀ e ∈ es, quiet e = true)
-  | 0, a, acc, appHash, n, _, h, _ => by
+  | 0, a, acc, appHash, n, _, _, h, _ => by
     refine ⟨[], appHash, by simp [hts, replayLoop], by omega, crashOK_behind h (by omega) hst, by simpa using h, by simp⟩
-  | m + 1, a, acc, appHash, n, ham, h, hh => by
+  | m + 1, a, acc, appHash, n, ham, hs0, h, hh => by
+    have hvals : valsOK c d0 (ht c (a + 1)) = true := valsOK_of hs0 (Nat.le_refl a)
     have hx := execCommit_run (c := c) (a := a) (by omega) hst h
     have hchk : ¬ (appHash ≠ [] ∧ appHash ≠ hist c (ht c (a + 1) - 1)) := by
       rw [hist_pred_ht]
@@ -314,10 +435,10 @@ theorem replayLoop_run {c : Chain} {d0 : Disk} {k st : Nat} (hst : st = k ∨ st
       rw [applyEffs_append]; exact hx.2
     obtain ⟨es, hash', hr, hhash, hpre, hfin, hq⟩ :=
       replayLoop_run hst m (a + 1) (acc ++ execCommit c (ht c (a + 1)))
-        (applyEffs d0 (acc ++ execCommit c (ht c (a + 1)))).app.hash (n + 1) (by omega) h'
-        (.inr h'.app.hash)
+        (applyEffs d0 (acc ++ execCommit c (ht c (a + 1)))).app.hash (n + 1) (by omega)
+        (Nat.le_trans hs0 (ht_le c (by omega))) h' (.inr h'.app.hash)
     refine ⟨execCommit c (ht c (a + 1)) ++ es, hash', ?_, ?_, ?_, ?_, ?_⟩
-    · simp only [hts, replayLoop, hchk, if_false]
+    · simp only [hts, replayLoop, hchk, if_false, hvals, Bool.not_true, Bool.false_eq_true]
       rw [hr]
       simp [List.append_assoc]; omega
     · intro _
@@ -365,9 +486,9 @@ theorem hsPre_run {c : Chain} {d : Disk} {k st a : Nat} (h : DInv c d k st a non
       | succ a' => have := ht_pos c a'; omega
     subst this
     have h1 : DInv c (applyEff d .initChain) k st 0 none :=
-      ⟨h.stateH, h.stateHash, h.storeH, h.app.initChain⟩
+      ⟨h.stateH, h.stateHash, h.storeH, h.app.initChain, h.pr⟩
     have h2 : DInv c (applyEff (applyEff d .initChain) .saveGenesis) k st 0 none :=
-      ⟨h.stateH, h.stateHash, h.storeH, h.app.initChain⟩
+      ⟨h.stateH, h.stateHash, h.storeH, h.app.initChain, h.pr⟩
     by_cases hs : d.stateH = 0
     · have : hsPre d = [.initChain, .saveGenesis] := by simp [hsPre, ha0, hs]
       rw [this]
@@ -386,45 +507,53 @@ theorem handshake_storeEmpty (c : Chain) (d : Disk) (h0 : d.storeH = 0) (hh : d.
   unfold handshake hsPre; simp [h0, hh]
 
 theorem handshake_synced (c : Chain) (d : Disk) (h0 : d.storeH ≠ 0)
-    (hlow : ¬ (0 < d.app.height ∧ d.app.height < c.ih - 1)) (h4 : d.storeH = d.stateH)
+    (hlowA : ¬ (d.app.height = 0 ∧ c.ih < d.storeBase))
+    (hlowB : ¬ (0 < d.app.height ∧ d.app.height < d.storeBase - 1)) (h4 : d.storeH = d.stateH)
     (h5 : d.app.height = d.storeH) (hnx : ¬ (d.stateH > nxt c d.stateH)) (hh : d.app.hash = d.stateHash) :
     handshake c d = ⟨hsPre d, .synced, .ok, 0⟩ := by
   unfold handshake hsPre
-  have : ¬ (d.stateH = 0) := by rw [← h4]; exact h0
-  simp [h4, h5, this, hh, hnx] at hlow ⊢
-  intro h1; exact hlow h1
+  have h1 : ¬ (d.storeH < d.app.height) := by omega
+  have h2 : ¬ (d.storeH < d.stateH) := by omega
+  have h3 : ¬ (d.storeH > nxt c d.stateH) := by rw [h4]; exact hnx
+  have h6 : ¬ (d.app.height < d.storeH) := by omega
+  simp only [h0, if_false, hlowA, hlowB, h1, h2, h3, h4 ▸ h6, h6]
+  simp [h4, h4 ▸ h5, hh]
 
 theorem handshake_noMutate (c : Chain) (d : Disk) (h0 : d.storeH ≠ 0)
-    (hlow : ¬ (0 < d.app.height ∧ d.app.height < c.ih - 1)) (h4 : d.storeH = d.stateH)
+    (hlowA : ¬ (d.app.height = 0 ∧ c.ih < d.storeBase))
+    (hlowB : ¬ (0 < d.app.height ∧ d.app.height < d.storeBase - 1)) (h4 : d.storeH = d.stateH)
     (h5 : d.app.height < d.storeH) (hnx : ¬ (d.stateH > nxt c d.stateH)) :
     handshake c d = replayBlocks c d (hsPre d) d.app.height d.storeH false .replayNoMutate := by
   unfold handshake hsPre
   have h1 : ¬ (d.storeH < d.app.height) := by omega
   have h2 : ¬ (d.storeH < d.stateH) := by omega
   have h3 : ¬ (d.storeH > nxt c d.stateH) := by rw [h4]; exact hnx
-  simp only [h0, if_false, hlow, h1, h2, h3]
+  simp only [h0, if_false, hlowA, hlowB, h1, h2, h3]
   simp [h4] at h5 ⊢
   intro h6; omega
 
 theorem handshake_next (c : Chain) (d : Disk) (h0 : d.storeH ≠ 0)
-    (hlow : ¬ (0 < d.app.height ∧ d.app.height < c.ih - 1)) (h1 : ¬ (d.storeH < d.app.height))
+    (hlowA : ¬ (d.app.height = 0 ∧ c.ih < d.storeBase))
+    (hlowB : ¬ (0 < d.app.height ∧ d.app.height < d.storeBase - 1)) (h1 : ¬ (d.storeH < d.app.height))
     (h4 : d.storeH = nxt c d.stateH) (hne : d.storeH ≠ d.stateH) (h2 : ¬ (d.storeH < d.stateH)) :
     handshake c d =
       (if d.app.height < d.stateH then replayBlocks c d (hsPre d) d.app.height d.storeH true .replayMutate
        else if d.app.height = d.stateH then
         if validBlock c (applyEffs d (hsPre d)) d.storeH then
-          ⟨hsPre d ++ applyBlockReal c d.storeH, .lastReal, .ok, 1⟩
+          if valsOK c d d.storeH then ⟨hsPre d ++ applyBlockReal c d.storeH, .lastReal, .ok, 1⟩
+          else ⟨hsPre d, .lastReal, .panicValsPruned, 0⟩
         else ⟨hsPre d, .lastReal, .errInvalidBlock, 0⟩
        else if d.app.height = d.storeH then
         if d.lastResp = some d.storeH then
           if validBlock c (applyEffs d (hsPre d)) d.storeH then
-            ⟨hsPre d ++ applyBlockMock d.storeH, .lastMock, .ok, 1⟩
+            if valsOK c d d.storeH then ⟨hsPre d ++ applyBlockMock d.storeH, .lastMock, .ok, 1⟩
+            else ⟨hsPre d, .lastMock, .panicValsPruned, 0⟩
           else ⟨hsPre d, .lastMock, .errInvalidBlock, 0⟩
         else ⟨hsPre d, .lastMock, .errNoResp, 0⟩
        else ⟨hsPre d, .uncovered, .panicUncovered, 0⟩) := by
   unfold handshake hsPre
   have h3 : ¬ (d.storeH > nxt c d.stateH) := by omega
-  simp only [h0, if_false, hlow, h1, h2, h3, hne]
+  simp only [h0, if_false, hlowA, hlowB, h1, h2, h3, hne]
   simp [← h4]
 
 theorem first_ht (c : Chain) (a : Nat) :
@@ -445,7 +574,7 @@ theorem replayBlocks_noMutate_run {c : Chain} {d : Disk} {k a : Nat} (br : Branc
   have hp := hsPre_run h (fun _ h' => crashOK_behind h' (by omega) (.inl rfl))
   obtain ⟨es, hash', hloop, hhash, hlpre, hfin, hlq⟩ :=
     replayLoop_run (c := c) (d0 := d) (k := k + 1) (st := k + 1) (.inl rfl) (k + 1 - a) a (hsPre d) [] 0
-      (by omega) hp.2.1 (.inl rfl)
+      (by omega) h.pr.2.1 hp.2.1 (.inl rfl)
   have hlen : ht c (k + 1) + 1 - ht c (a + 1) = k + 1 - a := by rw [ht_succ, ht_succ]; omega
   have hfinal : DInv c (applyEffs d (hsPre d ++ es)) (k + 1) (k + 1) (k + 1) none := by
     have : a + (k + 1 - a) = k + 1 := by omega
@@ -473,7 +602,7 @@ theorem replayBlocks_mutate_run {c : Chain} {d : Disk} {k a : Nat} (br : Branch)
   have hp := hsPre_run h (fun _ h' => crashOK_behind h' (by omega) (.inr rfl))
   obtain ⟨es, hash', hloop, hhash, hlpre, hfin, hlq⟩ :=
     replayLoop_run (c := c) (d0 := d) (k := k + 1) (st := k + 1 + 1) (.inr rfl) (k + 1 - a) a (hsPre d) [] 0
-      (by omega) hp.2.1 (.inl rfl)
+      (by omega) h.pr.2.1 hp.2.1 (.inl rfl)
   have hpred : ht c (k + 1 + 1) - 1 = ht c (k + 1) := by rw [ht_succ, ht_succ]; omega
   have hlen : ht c (k + 1) + 1 - ht c (a + 1) = k + 1 - a := by rw [ht_succ, ht_succ]; omega
   have hfinal : DInv c (applyEffs d (hsPre d ++ es)) (k + 1) (k + 1 + 1) (k + 1) none := by
@@ -482,10 +611,12 @@ theorem replayBlocks_mutate_run {c : Chain} {d : Disk} {k a : Nat} (br : Branch)
   have hv : validBlock c (applyEffs d (hsPre d ++ es)) (ht c (k + 1 + 1)) = true := by
     have := ht_pos c k
     simp [validBlock, hfinal.stateH, hfinal.stateHash, nxt_ht, hist_pred_ht, this]
+  have hvals : valsOK c (applyEffs d (hsPre d ++ es)) (ht c (k + 1 + 1)) = true :=
+    valsOK_of hfinal.pr.2.2 (Nat.le_refl _)
   have hr := applyBlockReal_run hfinal
   have hres : replayBlocks c d (hsPre d) d.app.height d.storeH true br
       = ⟨hsPre d ++ es ++ applyBlockReal c (ht c (k + 1 + 1)), br, .ok, 0 + (k + 1 - a) + 1⟩ := by
-    simp only [replayBlocks, if_true, h.app.height, first_ht, h.storeH, hpred, hlen, range'_hts, hloop, hv]
+    simp only [replayBlocks, if_true, h.app.height, first_ht, h.storeH, hpred, hlen, range'_hts, hloop, hv, hvals]
   simp only [hres]
   refine ⟨trivial, PrefAll.append (PrefAll.append hp.1 hlpre) hr.1, ?_, ?_⟩
   · rw [applyEffs_append]; exact hr.2
@@ -495,11 +626,6 @@ theorem replayBlocks_mutate_run {c : Chain} {d : Disk} {k a : Nat} (br : Branch)
       · exact quiet_hsPre d e he
       · exact hlq e he
     · exact quiet_real c _ e he
-
-theorem hlow_ht (c : Chain) (a : Nat) : ¬ (0 < ht c a ∧ ht c a < c.ih - 1) := by
-  cases a with
-  | zero => simp
-  | succ a' => rw [ht_succ]; simp [Chain.ih]; omega
 
 theorem nxt_gt (c : Chain) (k : Nat) : ¬ (ht c k > nxt c (ht c k)) := by
   rw [nxt_ht]; have := ht_lt c (show k < k + 1 by omega); omega
@@ -531,16 +657,17 @@ theorem handshake_run {c : Chain} {d : Disk} (h : Inv c d) (hgen : GenOK d) :
       have hpos := ht_pos c k
       have h0 : d.storeH ≠ 0 := by rw [hs]; omega
       have hgs : d.genesisSaved = true := hgen (by rw [hs]; exact hpos)
-      have hlow : ¬ (0 < d.app.height ∧ d.app.height < c.ih - 1) := by rw [ha]; exact hlow_ht c a
+      have hlowA := hlowA_of h.pr ha
+      have hlowB := hlowB_of h.pr ha
       have hnx : ¬ (d.stateH > nxt c d.stateH) := by rw [hst]; exact nxt_gt c _
       by_cases hEq : a = k + 1
       · subst hEq
         have hp := hsPre_run h (fun _ h' => crashOK_same h')
-        have := handshake_synced c d h0 hlow h4 (by rw [ha, hs]) hnx (by rw [h.app.hash, h.stateHash])
+        have := handshake_synced c d h0 hlowA hlowB h4 (by rw [ha, hs]) hnx (by rw [h.app.hash, h.stateHash])
         rw [this]
         exact ⟨rfl, hp.1, ⟨_, hp.2.1⟩, quiet_hsPre d, applyEffs_gs hgs⟩
       · have hlt : a < k + 1 := by omega
-        have := handshake_noMutate c d h0 hlow h4 (by rw [ha, hs]; exact ht_lt c hlt) hnx
+        have := handshake_noMutate c d h0 hlowA hlowB h4 (by rw [ha, hs]; exact ht_lt c hlt) hnx
         rw [this]
         have hr := replayBlocks_noMutate_run .replayNoMutate h hlt
         exact ⟨hr.1, hr.2.1, ⟨_, hr.2.2.1⟩, hr.2.2.2, applyEffs_gs hgs⟩
@@ -549,13 +676,14 @@ theorem handshake_run {c : Chain} {d : Disk} (h : Inv c d) (hgen : GenOK d) :
     have hpos := ht_pos c k
     have h0 : d.storeH ≠ 0 := by rw [hs]; omega
     have hgs : d.genesisSaved = true := hgen (by rw [hs]; exact hpos)
-    have hlow : ¬ (0 < d.app.height ∧ d.app.height < c.ih - 1) := by rw [ha]; exact hlow_ht c a
+    have hlowA := hlowA_of h.pr ha
+    have hlowB := hlowB_of h.pr ha
     have hak' : ht c a ≤ ht c k := by
       rcases Nat.lt_or_eq_of_le hak with e | e
       · exact Nat.le_of_lt (ht_lt c e)
       · rw [e]; exact Nat.le_refl _
     have hkk : ht c k < ht c (k + 1) := ht_lt c (by omega)
-    have hn := handshake_next c d h0 hlow (by rw [hs, ha]; omega) (by rw [hs, hst, nxt_ht])
+    have hn := handshake_next c d h0 hlowA hlowB (by rw [hs, ha]; omega) (by rw [hs, hst, nxt_ht])
       (by rw [hs, hst]; omega) (by rw [hs, hst]; omega)
     rw [hn]
     by_cases hEq : a = k
@@ -568,7 +696,8 @@ theorem handshake_run {c : Chain} {d : Disk} (h : Inv c d) (hgen : GenOK d) :
       have hr := applyBlockReal_run hp.2.1
       have e1 : ¬ (d.app.height < d.stateH) := by rw [ha, hst]; omega
       have e2 : d.app.height = d.stateH := by rw [ha, hst]
-      rw [if_neg e1, if_pos e2, if_pos hv, hs]
+      have hvals : valsOK c d d.storeH = true := by rw [hs]; exact valsOK_of h.pr.2.1 (Nat.le_refl _)
+      rw [if_neg e1, if_pos e2, if_pos hv, if_pos hvals, hs]
       refine ⟨rfl, PrefAll.append hp.1 hr.1, ⟨_, by rw [applyEffs_append]; exact hr.2⟩, ?_, applyEffs_gs hgs⟩
       intro e he
       rcases List.mem_append.mp he with he | he
@@ -585,9 +714,10 @@ theorem handshake_run {c : Chain} {d : Disk} (h : Inv c d) (hgen : GenOK d) :
     have hpos := ht_pos c k
     have h0 : d.storeH ≠ 0 := by rw [hs]; omega
     have hgs : d.genesisSaved = true := hgen (by rw [hs]; exact hpos)
-    have hlow : ¬ (0 < d.app.height ∧ d.app.height < c.ih - 1) := by rw [ha]; exact hlow_ht c _
+    have hlowA := hlowA_of h.pr ha
+    have hlowB := hlowB_of h.pr ha
     have hkk : ht c k < ht c (k + 1) := ht_lt c (by omega)
-    have hn := handshake_next c d h0 hlow (by rw [hs, ha]; omega) (by rw [hs, hst, nxt_ht])
+    have hn := handshake_next c d h0 hlowA hlowB (by rw [hs, ha]; omega) (by rw [hs, hst, nxt_ht])
       (by rw [hs, hst]; omega) (by rw [hs, hst]; omega)
     rw [hn]
     have hane : d.app.height ≠ 0 := by rw [ha]; omega
@@ -599,7 +729,8 @@ theorem handshake_run {c : Chain} {d : Disk} (h : Inv c d) (hgen : GenOK d) :
     have e2 : ¬ (d.app.height = d.stateH) := by rw [ha, hst]; omega
     have e3 : d.app.height = d.storeH := by rw [ha, hs]
     have e4 : d.lastResp = some d.storeH := by rw [hr, hs]
-    rw [if_neg e1, if_neg e2, if_pos e3, if_pos e4, if_pos hv, hpre, hs]
+    have hvals : valsOK c d d.storeH = true := by rw [hs]; exact valsOK_of h.pr.2.2 (Nat.le_refl _)
+    rw [if_neg e1, if_neg e2, if_pos e3, if_pos e4, if_pos hv, if_pos hvals, hpre, hs]
     have hm := applyBlockMock_run h hr
     exact ⟨rfl, by simpa using hm.1, ⟨_, by simpa using hm.2⟩, by simpa using quiet_mock (ht c (k + 1)),
       applyEffs_gs hgs⟩
@@ -640,7 +771,7 @@ theorem start_run {c : Chain} {d : Disk} (h : Inv c d) (hw : WInv c d) (hgen : G
       have : (applyEffs d (handshake c d).effs).walEnd ≠ (applyEffs d (handshake c d).effs).stateH := hm
       simp [this, d']
     rw [this]
-    have hg2 : Good c (applyEff d' (.walEnd d'.stateH)) m := ⟨hg.stateH, hg.stateHash, hg.storeH, hg.app⟩
+    have hg2 : Good c (applyEff d' (.walEnd d'.stateH)) m := ⟨hg.stateH, hg.stateHash, hg.storeH, hg.app, hg.pr⟩
     have hw2 : WInv c (applyEff d' (.walEnd d'.stateH)) :=
       ⟨hw'.1, fun _ => by show d'.stateH = d'.storeH; rw [hsh, hst]⟩
     refine ⟨hok, PrefAll.append hpre' ⟨⟨crashOK_same hg, hw'⟩, ⟨crashOK_same hg2, hw2⟩⟩, ⟨m, ?_⟩, ?_, ?_, hlive, ?_⟩
@@ -663,6 +794,10 @@ theorem genOK_step {d : Disk} {e : Eff} (h : GenOK d) (hs : ∀ x, e ≠ .saveBl
     simp only [applyEff] at hp ⊢
     split at hp <;> (split <;> exact h hp)
   | pvSign hh v =>
+    intro hp
+    simp only [applyEff] at hp ⊢
+    split at hp <;> (split <;> exact h hp)
+  | pruneBlocks r =>
     intro hp
     simp only [applyEff] at hp ⊢
     split at hp <;> (split <;> exact h hp)
